@@ -717,6 +717,8 @@ static int do_epoll(const char *prim, int epfd, struct epoll_event *events, int 
 		return -1;
 	}
 	if (eintr_now()) {
+		/* the signal arrives after part of the sleep has elapsed */
+		if (to_ns > 0) vclock += to_ns / 2;
 		logf_("WRET EINTR\n");
 		wait_done++;
 		errno = EINTR;
@@ -818,6 +820,7 @@ static int do_poll(const char *prim, struct pollfd *pfds, nfds_t n, long long to
 		return -1;
 	}
 	if (eintr_now()) {
+		if (to_ns > 0) vclock += to_ns / 2;
 		logf_("WRET EINTR\n");
 		wait_done++;
 		errno = EINTR;
